@@ -357,6 +357,18 @@ def run_case(concepts, case, spec):
         call(list, lat.upset_union(arg))
         arg = ms if form == 0 else ((c for c in list(ms)) if form == 1 else set(ms))
         call(list, lat.downset_union(arg))
+    import collections as _c
+    for t in range(6):                  # one collection object handed to several calls, never edited by the driver
+        ms = [members[rng.randrange(n)] for _ in range(rng.randint(1, 4))]
+        if t % 2 == 0:
+            ms += [members[0], members[-1]][:1 + t % 3]
+        coll = [set, frozenset, lambda x: dict.fromkeys(x).keys(), _c.deque, list, lambda x: dict.fromkeys(x)][t % 6](ms)
+        common.declare(coll)
+        call(list, lat.upset_union(coll))
+        call(list, lat.downset_union(coll))
+        call(list, lat.upset_union(coll))
+        common.undeclare(coll)
+    COL.count('one_collection_object_for_several_calls')
     seeds = []
     for _ in range(5):                  # one mutable seed list, edited between calls
         seeds.append(members[rng.randrange(n)])
